@@ -1723,4 +1723,482 @@ Section Concrete.
       first [exact good_neg | exact good_reverse | exact good_involute | exact good_conjugate | exact good_hodge | exact good_unhodge
             | exact good_unpolarity | exact good_normsq].
   Qed.
+
+  (* ---------------- the operators that are not modelled: hypotheses ---------------- *)
+  Variable ext : optable R.
+  Local Notation wfm' := (wfm R A).
+  Record ext_ok : Prop := mkExtOk {
+    ex_static : forall op kin kin' ko f, Forall (wfk A) kin -> Forall2 (@Permutation Z) kin kin' ->
+      ext op kin = Ok (ko, f) -> exists ko' f', ext op kin' = Ok (ko', f') /\ Permutation ko ko';
+    ex_wf : forall op kin ko f, Forall (wfk A) kin -> ext op kin = Ok (ko, f) -> wfk A ko;
+    ex_len : forall op kin ko f vs r, ext op kin = Ok (ko, f) ->
+      Forall2 (fun ks v => length v = length ks) kin vs -> f vs = Ok r -> length r = length ko;
+    (* inverse, division, square root do not depend on the storage order of their operand (C08 for them) *)
+    ex_perm : forall op xs xs' m, Forall wfm' xs -> Forall2 (@Permutation (Z * R)) xs xs' ->
+      call_op ext op xs = Ok m -> exists m', call_op ext op xs' = Ok m' /\ Permutation m m';
+  }.
+  Hypothesis Hext : ext_ok.
+  Local Notation sopd := (std_opd O A ext).
+  Local Notation scall := (call_op sopd).
+
+  Lemma keys_via_unit2 f : natural2 f -> forall x y,
+    keys (f R O A x y) = keys (f unit Uops A (ksym (keys x)) (ksym (keys y))).
+  Proof.
+    intros Hn x y. rewrite <- (keys_map_mv (fun _ : R => tt)). rewrite (Hn R unit O Uops _ unit_hom A x y).
+    rewrite !map_tt. reflexivity.
+  Qed.
+  Lemma keys_via_unit1 f : natural1 f -> forall x, keys (f R O A x) = keys (f unit Uops A (ksym (keys x))).
+  Proof.
+    intros Hn x. rewrite <- (keys_map_mv (fun _ : R => tt)). rewrite (Hn R unit O Uops _ unit_hom A x).
+    rewrite !map_tt. reflexivity.
+  Qed.
+
+  Lemma perm_equiv (x x' : mv R) : NoDup (keys x) -> Permutation x x' -> x == x'.
+  Proof.
+    intros Hn Hp K. pose proof (NoDup_keys_perm x x' Hn Hp) as Hn'.
+    destruct (in_dec Z.eq_dec K (keys x)) as [Hin|Hni].
+    - destruct (in_keys_ex x K Hin) as [v Hv].
+      rewrite (coeff_in R rO rI radd rmul rsub ropp K v x Hn Hv).
+      rewrite (coeff_in R rO rI radd rmul rsub ropp K v x' Hn' (Permutation_in _ Hp Hv)). reflexivity.
+    - rewrite !(coeff_notin R rO rI radd rmul rsub ropp); [reflexivity | | exact Hni].
+      intros H. apply Hni. eapply Permutation_in; [apply Permutation_sym, perm_keys; exact Hp | exact H].
+  Qed.
+
+  (* a call of a polynomial operator of the table returns the model operator applied to the operands *)
+  Lemma std_call2 op f x y : sassoc op poly2_table = Some f -> scall op [x; y] = Ok (f R O A x y).
+  Proof.
+    intros Hs. pose proof (poly2_good op f Hs) as G.
+    unfold call_op, std_opd. cbn [map]. rewrite Hs. cbn [bind gen2 fst snd].
+    rewrite !length_vals, !length_keys, !Nat.eqb_refl. cbn [andb bind]. rewrite !combine_keys_vals.
+    rewrite <- (keys_via_unit2 f (g2_nat f G)). rewrite combine_keys_vals. reflexivity.
+  Qed.
+  Lemma poly1_not_polarity op f : sassoc op poly1_table = Some f -> String.eqb op "polarity" = false.
+  Proof.
+    intros H. destruct (String.eqb_spec op "polarity") as [E|E]; [|reflexivity]. subst op. vm_compute in H. discriminate.
+  Qed.
+  Lemma std_call1 op f x : sassoc op poly1_table = Some f -> scall op [x] = Ok (f R O A x).
+  Proof.
+    intros Hs. pose proof (poly1_good op f Hs) as G.
+    unfold call_op, std_opd. cbn [map]. rewrite (poly1_not_polarity op f Hs), Hs. cbn [bind gen1 fst snd].
+    rewrite !length_vals, !length_keys, !Nat.eqb_refl. cbn [bind]. rewrite !combine_keys_vals.
+    rewrite <- (keys_via_unit1 f (g1_nat f G)). rewrite combine_keys_vals. reflexivity.
+  Qed.
+
+  (* polarity: the branch depends on the algebra only *)
+  Lemma polarity_unit_keys (x : mv R) r : polarity O A x = Ok r ->
+    exists ku, polarity Uops A (ksym (keys x)) = Ok ku /\ keys ku = keys r.
+  Proof.
+    intros H. pose proof (nat_polarity O Uops (fun _ : R => tt) unit_hom A x) as Hn. rewrite H in Hn. cbn [map_res] in Hn.
+    rewrite !map_tt in Hn. eexists. split; [symmetry; exact Hn|]. apply keys_ksym.
+  Qed.
+  Lemma polarity_unit_ok (x : mv R) ku : polarity Uops A (ksym (keys x)) = Ok ku -> exists r, polarity O A x = Ok r.
+  Proof.
+    intros H. pose proof (nat_polarity O Uops (fun _ : R => tt) unit_hom A x) as Hn. rewrite map_tt, H in Hn.
+    destruct (polarity O A x) as [r|e]; [eauto | discriminate].
+  Qed.
+  Lemma std_call_polarity x : scall "polarity" [x] = polarity O A x.
+  Proof.
+    unfold call_op, std_opd. cbn [map]. change (String.eqb "polarity" "polarity") with true. cbn iota.
+    unfold gen_polarity. destruct (polarity O A x) as [r|e] eqn:Hp.
+    - destruct (polarity_unit_keys x r Hp) as [ku [Hu Hk]]. rewrite Hu. cbn [bind fst snd].
+      rewrite length_vals, length_keys, Nat.eqb_refl. rewrite combine_keys_vals, Hp. cbn [bind].
+      rewrite Hk. rewrite combine_keys_vals. reflexivity.
+    - destruct (polarity Uops A (ksym (keys x))) as [ku|e'] eqn:Hu.
+      + destruct (polarity_unit_ok x ku Hu) as [r Hr]. congruence.
+      + cbn [bind]. pose proof (nat_polarity O Uops (fun _ : R => tt) unit_hom A x) as Hn.
+        rewrite map_tt, Hu, Hp in Hn. cbn in Hn. inversion Hn; subst. reflexivity.
+  Qed.
+
+  (* ---------------- facts about the algebra ---------------- *)
+  Lemma alg_len_pos : 0 < alg_len A.
+  Proof. unfold alg_len. apply Z.pow_pos_nonneg; lia. Qed.
+  Lemma zero_canon : In 0 (canon_keys A).
+  Proof. apply (sh_keys A SH). pose proof alg_len_pos. lia. Qed.
+  Lemma grades_nodup gs bb : indices_for_grades A gs = Ok bb -> NoDup bb.
+  Proof.
+    unfold indices_for_grades. destruct (strictly_inc gs) eqn:Hs; cbn [andb]; [|discriminate].
+    destruct (forallb _ gs); [|discriminate]. intros H. inversion H; subst.
+    exact (NoDup_indices_for_grades A (sh_keys A SH) Hnd (sh_grade A SH) gs Hs).
+  Qed.
+  Lemma wfm_range (x : mv R) k : wfm' x -> In k (keys x) -> 0 <= k < alg_len A.
+  Proof. intros [_ Hi] Hk. apply (sh_keys A SH). apply Hi. exact Hk. Qed.
+
+  (* ---------------- Permutation from coefficients and stored key sets ---------------- *)
+  Lemma perm_of_equiv (m m' : mv R) : NoDup (keys m) -> NoDup (keys m') ->
+    (forall k, In k (keys m) <-> In k (keys m')) -> m == m' -> Permutation m m'.
+  Proof.
+    intros Hn Hn' Hk He. apply NoDup_Permutation; [apply NoDup_keys_NoDup; exact Hn | apply NoDup_keys_NoDup; exact Hn' |].
+    intros [k v]. split; intros Hin.
+    - assert (Hk' : In k (keys m')) by (apply Hk; eapply in_keys_of; exact Hin).
+      destruct (in_keys_ex m' k Hk') as [v' Hv'].
+      pose proof (coeff_in R rO rI radd rmul rsub ropp k v m Hn Hin) as E1.
+      pose proof (coeff_in R rO rI radd rmul rsub ropp k v' m' Hn' Hv') as E2.
+      rewrite (He k) in E1. congruence.
+    - assert (Hk' : In k (keys m)) by (apply Hk; eapply in_keys_of; exact Hin).
+      destruct (in_keys_ex m k Hk') as [v' Hv'].
+      pose proof (coeff_in R rO rI radd rmul rsub ropp k v m' Hn' Hin) as E1.
+      pose proof (coeff_in R rO rI radd rmul rsub ropp k v' m Hn Hv') as E2.
+      rewrite <- (He k) in E1. congruence.
+  Qed.
+
+  (* a scalar commutes in every product kernel that treats the scalar blade symmetrically *)
+  Lemma product_scalar_comm sfun filt kout c (x : mv R) :
+    (forall k, In k (keys x) -> sfun 0 k = sfun k 0 /\ kout 0 k = kout k 0
+                               /\ accepts filt 0 k (kout 0 k) = accepts filt k 0 (kout k 0)) ->
+    Permutation (canon_sort A (codegen_product O sfun filt kout [(0, c)] x))
+                (canon_sort A (codegen_product O sfun filt kout x [(0, c)])).
+  Proof.
+    intros Hc. apply perm_of_equiv; try apply sorted_wf.
+    - intros K. rewrite !in_keys_canon_sort, !product_keys. split; intros [HK [kx [vx [ky [vy [H1 [H2 [H3 [H4 H5]]]]]]]]]; split; try exact HK.
+      + destruct H1 as [E|[]]. inversion E; subst kx vx. destruct (Hc ky (in_keys_of x ky vy H2)) as [E1 [E2 E3]].
+        exists ky, vy, 0, c. rewrite <- E3, <- E1, <- E2. repeat split; auto. left; reflexivity.
+      + destruct H2 as [E|[]]. inversion E; subst ky vy. destruct (Hc kx (in_keys_of x kx vx H1)) as [E1 [E2 E3]].
+        exists 0, c, kx, vx. rewrite E3, E1, E2. repeat split; auto. left; reflexivity.
+    - intros K. rewrite !(coeff_canon_sort R rO rI radd rmul rsub ropp). destruct (zin K (canon_keys A)); [|reflexivity].
+      rewrite !(product_coeff R rO rI radd rmul rsub ropp Rth), list_prod_single_l, list_prod_single_r, !map_map.
+      apply rsum_map_ext. intros [k v] Hin.
+      destruct (Hc k (in_keys_of x k v Hin)) as [E1 [E2 E3]].
+      unfold contrib, active. rewrite E3, E1, E2.
+      destruct (negb (sfun k 0 =? 0) && accepts filt k 0 (kout k 0) && (kout k 0 =? K)); [|reflexivity].
+      destruct (0 <? sfun k 0); ring.
+  Qed.
+
+  Lemma scalar_cond_gp (x : mv R) : wfm' x -> forall k, In k (keys x) ->
+    sgn A 0 k = sgn A k 0 /\ Z.lxor 0 k = Z.lxor k 0 /\ accepts None 0 k (Z.lxor 0 k) = accepts None k 0 (Z.lxor k 0).
+  Proof.
+    intros Hw k Hk. destruct (sh_scal A SH k (wfm_range x k Hw Hk)) as [E1 E2].
+    rewrite E1, E2, Z.lxor_0_l, Z.lxor_0_r. auto.
+  Qed.
+  Lemma scalar_cond_op (x : mv R) : wfm' x -> forall k, In k (keys x) ->
+    sgn A 0 k = sgn A k 0 /\ Z.lxor 0 k = Z.lxor k 0
+    /\ accepts (Some filter_op) 0 k (Z.lxor 0 k) = accepts (Some filter_op) k 0 (Z.lxor k 0).
+  Proof.
+    intros Hw k Hk. destruct (sh_scal A SH k (wfm_range x k Hw Hk)) as [E1 E2].
+    rewrite E1, E2, Z.lxor_0_l, Z.lxor_0_r. cbn [accepts]. unfold filter_op. rewrite Z.add_0_l, Z.add_0_r. auto.
+  Qed.
+
+  Lemma add_comm_perm (x y : mv R) : NoDup (keys x) -> NoDup (keys y) -> Permutation (add O A x y) (add O A y x).
+  Proof.
+    intros Hx Hy. apply perm_of_equiv; try apply sorted_wf.
+    - intros K. unfold add. rewrite !in_keys_canon_sort, !(keys_raw_add R rO rI radd rmul rsub ropp) by assumption.
+      rewrite !in_union. tauto.
+    - intros K. destruct (in_dec Z.eq_dec K (canon_keys A)) as [HK|HK].
+      + rewrite !(add_coeff R rO rI radd rmul rsub ropp Rth) by assumption. ring.
+      + unfold add. rewrite !(coeff_canon_sort_notin R rO rI radd rmul rsub ropp) by exact HK. reflexivity.
+  Qed.
+  Lemma sub_as_add_neg (x y : mv R) : wfm' y -> NoDup (keys x) ->
+    Permutation (sub O A x y) (add O A (neg O A y) x).
+  Proof.
+    intros [Hy Hyi] Hx. pose proof (proj1 (sorted_wf (raw_neg O y))) as Hnn.
+    apply perm_of_equiv; try apply sorted_wf.
+    - intros K. unfold sub, add. rewrite !in_keys_canon_sort.
+      rewrite (keys_raw_sub R rO rI radd rmul rsub ropp) by assumption.
+      rewrite (keys_raw_add R rO rI radd rmul rsub ropp) by assumption.
+      rewrite !in_union. unfold neg. rewrite in_keys_canon_sort, (keys_raw_neg R rO rI radd rmul rsub ropp) by exact Hy.
+      split; intros [HK H]; (split; [exact HK|]); tauto.
+    - intros K. destruct (in_dec Z.eq_dec K (canon_keys A)) as [HK|HK].
+      + rewrite (sub_coeff R rO rI radd rmul rsub ropp Rth) by assumption.
+        rewrite (add_coeff R rO rI radd rmul rsub ropp Rth) by assumption.
+        rewrite (neg_coeff R rO rI radd rmul rsub ropp Rth) by assumption. ring.
+      + unfold sub, add. rewrite !(coeff_canon_sort_notin R rO rI radd rmul rsub ropp) by exact HK. reflexivity.
+  Qed.
+
+  (* the scalar blade alone *)
+  Lemma cs_notin {T} k (v : T) L : ~ In k L -> flat_map (fun k1 => if Z.eqb k k1 then [(k1, v)] else []) L = [].
+  Proof.
+    induction L as [|k1 L IH]; intros Hn; [reflexivity|]. cbn [flat_map].
+    destruct (Z.eqb_spec k k1) as [E|E]; [exfalso; apply Hn; left; auto|]. cbn [app]. apply IH. intros H. apply Hn. right; exact H.
+  Qed.
+  Lemma cs_in {T} k (v : T) L : NoDup L -> In k L -> flat_map (fun k1 => if Z.eqb k k1 then [(k1, v)] else []) L = [(k, v)].
+  Proof.
+    induction L as [|k1 L IH]; intros Hn Hi; [contradiction|]. inversion Hn as [|? ? Hni Hn']; subst.
+    cbn [flat_map]. destruct (Z.eqb_spec k k1) as [E|E].
+    - subst k1. rewrite (cs_notin k v L Hni). reflexivity.
+    - cbn [app]. apply IH; [exact Hn'|]. destruct Hi as [Hi|Hi]; [congruence | exact Hi].
+  Qed.
+  Lemma canon_sort_single {T} k (v : T) : In k (canon_keys A) -> canon_sort A [(k, v)] = [(k, v)].
+  Proof.
+    intros Hin. unfold canon_sort.
+    transitivity (flat_map (fun k1 => if Z.eqb k k1 then [(k1, v)] else []) (canon_keys A)).
+    - apply flat_map_ext. intros k1. cbn [zassoc]. destruct (Z.eqb k k1); reflexivity.
+    - apply cs_in; [exact Hnd | exact Hin].
+  Qed.
+  Lemma sgn00 : sgn A 0 0 = 1.
+  Proof. apply (sh_scal A SH 0). pose proof alg_len_pos. lia. Qed.
+  Lemma add_scalars a b : add O A [(0, a)] [(0, b)] = [(0, radd a b)].
+  Proof. unfold add, raw_add. cbn. apply canon_sort_single, zero_canon. Qed.
+  Lemma sub_scalars a b : sub O A [(0, a)] [(0, b)] = [(0, rsub a b)].
+  Proof. unfold sub, raw_sub. cbn. apply canon_sort_single, zero_canon. Qed.
+  Lemma neg_scalar a : neg O A [(0, a)] = [(0, ropp a)].
+  Proof. unfold neg, raw_neg. cbn. apply canon_sort_single, zero_canon. Qed.
+  Lemma gp_scalars a b : gp O A [(0, a)] [(0, b)] = [(0, rmul a b)].
+  Proof.
+    unfold gp, raw_gp, codegen_product. cbn [list_prod map app fold_left product_step]. rewrite sgn00. cbn.
+    apply canon_sort_single, zero_canon.
+  Qed.
+
+  (* ---------------- the table of Model/Tape.v is well-behaved ---------------- *)
+  Lemma sopd2 op kx ky : sopd op [kx; ky]
+    = match sassoc op poly2_table with Some f => Ok (gen2 O A f kx ky) | None => ext op [kx; ky] end.
+  Proof. reflexivity. Qed.
+  Lemma sopd1 op kx : sopd op [kx]
+    = if String.eqb op "polarity" then gen_polarity O A kx
+      else match sassoc op poly1_table with Some f => Ok (gen1 O A f kx) | None => ext op [kx] end.
+  Proof. reflexivity. Qed.
+  Lemma NoDup_ksym ks : NoDup ks -> NoDup (keys (ksym ks)).
+  Proof. rewrite keys_ksym. auto. Qed.
+
+  Lemma polarity_unit_perm (X X' : mv unit) : NoDup (keys X) -> Permutation X X' -> polarity Uops A X = polarity Uops A X'.
+  Proof.
+    intros Hn Hp. unfold polarity.
+    rewrite (g1_perm _ good_neg X X' Hn Hp).
+    rewrite (g2_perm _ good_gp X X' (pss_mv Uops A) (pss_mv Uops A) Hn); [reflexivity | | exact Hp | apply Permutation_refl].
+    cbn. repeat constructor. intros [].
+  Qed.
+  Lemma polarity_wf {T} (OT : ops T) (x r : mv T) : polarity OT A x = Ok r -> NoDup (keys r) /\ incl (keys r) (canon_keys A).
+  Proof.
+    unfold polarity. destruct (sgn A (pss_key A) (pss_key A) =? -1); [intros H; inversion H; apply sorted_wf|].
+    destruct (sgn A (pss_key A) (pss_key A) =? 1); [intros H; inversion H; apply sorted_wf|].
+    destruct (sgn A (pss_key A) (pss_key A) =? 0); discriminate.
+  Qed.
+
+  Lemma Forall2_length' {X Y} (P : X -> Y -> Prop) l l' : Forall2 P l l' -> length l = length l'.
+  Proof. induction 1; cbn; congruence. Qed.
+  Lemma Forall2_len2 {X Y} (P : X -> Y -> Prop) a b l' : Forall2 P [a; b] l' -> exists a' b', l' = [a'; b'] /\ P a a' /\ P b b'.
+  Proof. intros H. inversion H as [|? a' ? r1 Ha H1]; subst. inversion H1 as [|? b' ? r2 Hb H2]; subst. inversion H2; subst. eauto 6. Qed.
+  Lemma Forall2_len1 {X Y} (P : X -> Y -> Prop) a l' : Forall2 P [a] l' -> exists a', l' = [a'] /\ P a a'.
+  Proof. intros H. inversion H as [|? a' ? r1 Ha H1]; subst. inversion H1; subst. eauto. Qed.
+  Lemma sopd_ext_shape op kin kin' : (forall (X : Type) (P : list Z -> list Z -> Prop), True) ->
+    Forall2 (@Permutation Z) kin kin' -> length kin <> 1%nat -> length kin <> 2%nat ->
+    sopd op kin = ext op kin /\ sopd op kin' = ext op kin'.
+  Proof.
+    intros _ Hp H1 H2. pose proof (Forall2_length' _ _ _ Hp) as Hl.
+    destruct kin as [|a [|b [|c r]]], kin' as [|a' [|b' [|c' r']]]; cbn in *; try lia; split; reflexivity.
+  Qed.
+
+  Theorem std_opd_ok : optable_ok R radd rmul rsub ropp A sopd.
+  Proof.
+    constructor.
+    - (* ok_static *)
+      intros op kin kin' ko f Hk Hp H.
+      destruct kin as [|kx [|ky [|kz kr]]].
+      + inversion Hp; subst. change (sopd op []) with (ext op []) in *. exact (ex_static Hext op [] [] ko f Hk Hp H).
+      + destruct (Forall2_len1 _ _ _ Hp) as [kx' [E Px]]. subst kin'. rewrite sopd1 in H |- *.
+        inversion Hk as [|? ? Hkx _]; subst.
+        destruct (String.eqb op "polarity").
+        * unfold gen_polarity in H |- *. inv_bindn H as ku Hku. inversion H; subst ko f. clear H.
+          rewrite <- (polarity_unit_perm (ksym kx) (ksym kx') (NoDup_ksym kx (proj1 Hkx)) (ksym_perm _ _ Px)), Hku. cbn [bind].
+          eexists _, _. split; [reflexivity | apply Permutation_refl].
+        * destruct (sassoc op poly1_table) as [g|] eqn:Hs; [|exact (ex_static Hext op [kx] [kx'] ko f Hk Hp H)].
+          inversion H; subst ko f. clear H. eexists _, _. split; [reflexivity|]. cbn [gen1 fst].
+          rewrite (g1_perm g (poly1_good op g Hs) (ksym kx) (ksym kx') (NoDup_ksym kx (proj1 Hkx)) (ksym_perm _ _ Px)).
+          apply Permutation_refl.
+      + destruct (Forall2_len2 _ _ _ _ Hp) as [kx' [ky' [E [Px Py]]]]. subst kin'. rewrite sopd2 in H |- *.
+        inversion Hk as [|? ? Hkx Hk']; subst. inversion Hk' as [|? ? Hky _]; subst.
+        destruct (sassoc op poly2_table) as [g|] eqn:Hs; [|exact (ex_static Hext op [kx; ky] [kx'; ky'] ko f Hk Hp H)].
+        inversion H; subst ko f. clear H. eexists _, _. split; [reflexivity|]. cbn [gen2 fst].
+        rewrite (g2_perm g (poly2_good op g Hs) (ksym kx) (ksym kx') (ksym ky) (ksym ky')
+                   (NoDup_ksym kx (proj1 Hkx)) (NoDup_ksym ky (proj1 Hky)) (ksym_perm _ _ Px) (ksym_perm _ _ Py)).
+        apply Permutation_refl.
+      + destruct (sopd_ext_shape op (kx :: ky :: kz :: kr) kin' (fun _ _ => I) Hp) as [E1 E2]; [cbn; lia | cbn; lia |].
+        rewrite E1 in H. rewrite E2. exact (ex_static Hext op _ kin' ko f Hk Hp H).
+    - (* ok_wf *)
+      intros op kin ko f Hk H.
+      destruct kin as [|kx [|ky [|kz kr]]]; try exact (ex_wf Hext op _ ko f Hk H).
+      + rewrite sopd1 in H. destruct (String.eqb op "polarity").
+        * unfold gen_polarity in H. inv_bindn H as ku Hku. inversion H; subst ko f. exact (polarity_wf Uops _ ku Hku).
+        * destruct (sassoc op poly1_table) as [g|] eqn:Hs; [|exact (ex_wf Hext op _ ko f Hk H)].
+          inversion H; subst ko f. exact (g1_wf g (poly1_good op g Hs) unit Uops _).
+      + rewrite sopd2 in H. destruct (sassoc op poly2_table) as [g|] eqn:Hs; [|exact (ex_wf Hext op _ ko f Hk H)].
+        inversion H; subst ko f. exact (g2_wf g (poly2_good op g Hs) unit Uops _ _).
+    - (* ok_len *)
+      intros op kin ko f vs r H Hl Hf.
+      destruct kin as [|kx [|ky [|kz kr]]]; try exact (ex_len Hext op _ ko f vs r H Hl Hf).
+      + destruct (Forall2_len1 _ _ _ Hl) as [vx [E Lx]]. subst vs. rewrite sopd1 in H. destruct (String.eqb op "polarity").
+        * unfold gen_polarity in H. inv_bindn H as ku Hku. inversion H; subst ko f. clear H. cbn beta iota in Hf.
+          rewrite Lx, Nat.eqb_refl in Hf. inv_bindn Hf as r0 Hr0. inversion Hf; subst r.
+          destruct (polarity_unit_keys (combine kx vx) r0 Hr0) as [ku' [Hu' Hk']].
+          rewrite keys_combine in Hu' by exact Lx. rewrite Hku in Hu'. inversion Hu'; subst ku'.
+          rewrite length_vals, <- (length_keys r0), <- Hk'. reflexivity.
+        * destruct (sassoc op poly1_table) as [g|] eqn:Hs; [|exact (ex_len Hext op _ ko f _ r H Hl Hf)].
+          inversion H; subst ko f. clear H. cbn beta iota in Hf. rewrite Lx, Nat.eqb_refl in Hf. inversion Hf; subst r.
+          rewrite length_vals, <- (length_keys (g R O A _)), (keys_via_unit1 g (g1_nat g (poly1_good op g Hs))).
+          rewrite keys_combine by exact Lx. reflexivity.
+      + destruct (Forall2_len2 _ _ _ _ Hl) as [vx [vy [E [Lx Ly]]]]. subst vs. rewrite sopd2 in H.
+        destruct (sassoc op poly2_table) as [g|] eqn:Hs; [|exact (ex_len Hext op _ ko f _ r H Hl Hf)].
+        inversion H; subst ko f. clear H. cbn beta iota in Hf. rewrite Lx, Ly, !Nat.eqb_refl in Hf. cbn [andb] in Hf. inversion Hf; subst r.
+        rewrite length_vals, <- (length_keys (g R O A _ _)), (keys_via_unit2 g (g2_nat g (poly2_good op g Hs))).
+        rewrite !keys_combine by assumption. reflexivity.
+    - (* ok_perm *)
+      intros op xs xs' m Hw Hp H.
+      assert (Hext_case : scall op xs = call_op ext op xs -> scall op xs' = call_op ext op xs' ->
+                          exists m', scall op xs' = Ok m' /\ Permutation m m').
+      { intros E1 E2. rewrite E1 in H. rewrite E2. exact (ex_perm Hext op xs xs' m Hw Hp H). }
+      destruct xs as [|x [|y [|z xr]]].
+      + inversion Hp; subst. apply Hext_case; reflexivity.
+      + destruct (Forall2_len1 _ _ _ Hp) as [x' [E Px]]. subst xs'. inversion Hw as [|? ? Hwx _]; subst.
+        destruct (String.eqb_spec op "polarity") as [Eo|Eo].
+        * subst op. rewrite std_call_polarity in H |- *.
+          pose proof (polarity_wf O x m H) as [Hn1 _].
+          destruct (polarity_unit_keys x m H) as [ku [Hu Hk]].
+          rewrite (polarity_unit_perm (ksym (keys x)) (ksym (keys x')) (NoDup_ksym _ (proj1 Hwx)) (ksym_perm _ _ (perm_keys _ _ Px))) in Hu.
+          destruct (polarity_unit_ok x' ku Hu) as [m' Hm']. exists m'. split; [exact Hm'|].
+          destruct (polarity_unit_keys x' m' Hm') as [ku' [Hu' Hk']]. rewrite Hu in Hu'. inversion Hu'; subst ku'.
+          rewrite (eq_of_equiv m m'); [apply Permutation_refl | congruence | exact Hn1 |].
+          (* coefficients: polarity is gp with the pseudoscalar (of x or of -x) *)
+          revert H Hm'. unfold polarity.
+          destruct (sgn A (pss_key A) (pss_key A) =? -1).
+          { intros H Hm'. inversion H; inversion Hm'; subst.
+            apply (g2_congr _ good_gp);
+              [apply (g1_wf _ good_neg) | apply (g1_wf _ good_neg) | cbn; repeat constructor; intros [] | cbn; repeat constructor; intros []
+              | | apply equiv_refl'].
+            apply (g1_congr _ good_neg); [exact (proj1 Hwx) | exact (NoDup_keys_perm x x' (proj1 Hwx) Px) | exact (perm_equiv x x' (proj1 Hwx) Px)]. }
+          destruct (sgn A (pss_key A) (pss_key A) =? 1).
+          { intros H Hm'. inversion H; inversion Hm'; subst.
+            apply (g2_congr _ good_gp);
+              [exact (proj1 Hwx) | exact (NoDup_keys_perm x x' (proj1 Hwx) Px) | cbn; repeat constructor; intros [] | cbn; repeat constructor; intros []
+              | exact (perm_equiv x x' (proj1 Hwx) Px) | apply equiv_refl']. }
+          destruct (sgn A (pss_key A) (pss_key A) =? 0); discriminate.
+        * destruct (sassoc op poly1_table) as [g|] eqn:Hs.
+          -- pose proof (poly1_good op g Hs) as G. rewrite (std_call1 op g x Hs) in H. inversion H; subst m.
+             exists (g R O A x'). split; [exact (std_call1 op g x' Hs)|].
+             rewrite (eq_of_equiv (g R O A x) (g R O A x')); [apply Permutation_refl | | apply (g1_wf g G) |].
+             ++ rewrite !(keys_via_unit1 g (g1_nat g G)).
+                rewrite (g1_perm g G (ksym (keys x)) (ksym (keys x')) (NoDup_ksym _ (proj1 Hwx)) (ksym_perm _ _ (perm_keys _ _ Px))). reflexivity.
+             ++ apply (g1_congr g G); [exact (proj1 Hwx) | exact (NoDup_keys_perm x x' (proj1 Hwx) Px) | exact (perm_equiv x x' (proj1 Hwx) Px)].
+          -- apply Hext_case; unfold call_op; cbn [map]; rewrite sopd1;
+               (destruct (String.eqb_spec op "polarity"); [contradiction|]); rewrite Hs; reflexivity.
+      + destruct (Forall2_len2 _ _ _ _ Hp) as [x' [y' [E [Px Py]]]]. subst xs'.
+        inversion Hw as [|? ? Hwx Hw']; subst. inversion Hw' as [|? ? Hwy _]; subst.
+        destruct (sassoc op poly2_table) as [g|] eqn:Hs.
+        * pose proof (poly2_good op g Hs) as G. rewrite (std_call2 op g x y Hs) in H. inversion H; subst m.
+          exists (g R O A x' y'). split; [exact (std_call2 op g x' y' Hs)|].
+          rewrite (eq_of_equiv (g R O A x y) (g R O A x' y')); [apply Permutation_refl | | apply (g2_wf g G) |].
+          -- rewrite !(keys_via_unit2 g (g2_nat g G)).
+             rewrite (g2_perm g G (ksym (keys x)) (ksym (keys x')) (ksym (keys y)) (ksym (keys y'))
+                        (NoDup_ksym _ (proj1 Hwx)) (NoDup_ksym _ (proj1 Hwy))
+                        (ksym_perm _ _ (perm_keys _ _ Px)) (ksym_perm _ _ (perm_keys _ _ Py))). reflexivity.
+          -- apply (g2_congr g G); try exact (proj1 Hwx); try exact (proj1 Hwy);
+               [exact (NoDup_keys_perm x x' (proj1 Hwx) Px) | exact (NoDup_keys_perm y y' (proj1 Hwy) Py)
+               | exact (perm_equiv x x' (proj1 Hwx) Px) | exact (perm_equiv y y' (proj1 Hwy) Py)].
+        * apply Hext_case; unfold call_op; cbn [map]; rewrite sopd2, Hs; reflexivity.
+      + pose proof (Forall2_length' _ _ _ Hp) as Hl. destruct xs' as [|a' [|b' [|c' r']]]; cbn in Hl; try lia.
+        apply Hext_case; reflexivity.
+    - (* number * x *)
+      intros c x m Hw H. rewrite (std_call2 "gp" (@gp)) in H by reflexivity. inversion H; subst m.
+      eexists. split; [apply (std_call2 "gp" (@gp)); reflexivity|].
+      apply (product_scalar_comm (sgn A) None Z.lxor c x). apply scalar_cond_gp. exact Hw.
+    - (* number ^ x *)
+      intros c x m Hw H. rewrite (std_call2 "op" (@op)) in H by reflexivity. inversion H; subst m.
+      eexists. split; [apply (std_call2 "op" (@op)); reflexivity|].
+      apply (product_scalar_comm (sgn A) (Some filter_op) Z.lxor c x). apply scalar_cond_op. exact Hw.
+    - (* x + number *)
+      intros c x m Hw H. rewrite (std_call2 "add" (@add)) in H by reflexivity. inversion H; subst m.
+      eexists. split; [apply (std_call2 "add" (@add)); reflexivity|].
+      apply add_comm_perm; [exact (proj1 Hw) | cbn; repeat constructor; intros []].
+    - (* number - x *)
+      intros c x m Hw H. rewrite (std_call2 "sub" (@sub)) in H by reflexivity. inversion H; subst m.
+      exists (neg O A x), (add O A (neg O A x) [(0, c)]).
+      split; [apply (std_call1 "neg" (@neg)); reflexivity|].
+      split; [apply (std_call2 "add" (@add)); reflexivity|].
+      apply sub_as_add_neg; [exact Hw | cbn; repeat constructor; intros []].
+    - intros a b. rewrite (std_call2 "add" (@add)) by reflexivity. rewrite add_scalars. reflexivity.
+    - intros a b. rewrite (std_call2 "sub" (@sub)) by reflexivity. rewrite sub_scalars. reflexivity.
+    - intros a b. rewrite (std_call2 "gp" (@gp)) by reflexivity. rewrite gp_scalars. reflexivity.
+    - intros a. rewrite (std_call1 "neg" (@neg)) by reflexivity. rewrite neg_scalar. reflexivity.
+  Qed.
 End Concrete.
+
+
+(* ================= 3. C11 for the table of Model/Tape.v ================= *)
+
+Section C11.
+  Variable R : Type.
+  Variables (rO rI : R) (radd rmul rsub : R -> R -> R) (ropp : R -> R).
+  Hypothesis Rth : ring_theory rO rI radd rmul rsub ropp (@eq R).
+  Local Notation O := (mkOps R radd rsub rmul ropp rO rI).
+  Local Notation "x == y" := (Sparse.equiv rO rI radd rmul rsub ropp x y) (at level 70, no associativity).
+  Variable A : alg.
+  Hypothesis Hwf : wf_alg A = true.
+  Variable ext : optable R.
+  Hypothesis Hext : ext_ok R A ext.
+  Variable bodies : list (expr R).
+  Local Notation opd := (std_opd O A ext).
+  Local Notation plain := (plain_call O A opd mv_methods tape_methods bodies).
+  Local Notation reg := (registered O A opd tape_methods bodies).
+
+  Let Hok := std_opd_ok R rO rI radd rmul rsub ropp Rth A Hwf ext Hext.
+  Let H0 := zero_canon A Hwf.
+  Let Hgr := grades_nodup A Hwf.
+
+  Lemma reg_wf fuel k (xs : list (mv R)) m : Forall (wfm R A) xs -> reg fuel k xs = Ok m -> wfm R A m.
+  Proof.
+    intros Hw Hm.
+    assert (Hrefl : Forall2 (@Permutation (Z * R)) xs xs) by (clear; induction xs; constructor; [apply Permutation_refl | assumption]).
+    exact (proj1 (registered_perm R rO rI radd rmul rsub ropp A opd bodies Hok H0 fuel k xs xs m Hw Hrefl Hm)).
+  Qed.
+
+  (* f(args) returns v  ==>  alg.register(f)(args) returns the same multivector, on the supported fragment *)
+  Theorem tape_agrees : forall fuel k body (xs : list (mv R)) v,
+    nth_error bodies k = Some body -> supported body = true -> isnum body = false -> noswap body = true ->
+    Forall (wfm R A) xs ->
+    plain fuel k xs = Ok v ->
+    exists m, reg fuel k xs = Ok m /\ Permutation m (as_mv v) /\ m == as_mv v.
+  Proof.
+    intros fuel k body xs v Hb Hs Hn Hns Hw Hp. unfold plain_call in Hp. rewrite Hb in Hp. cbn [of_opt bind] in Hp.
+    destruct (registered_agrees R rO rI radd rmul rsub ropp Rth A opd bodies Hok H0 Hgr fuel k body xs v Hw Hb Hns Hp) as [_ H2].
+    destruct (H2 Hs Hn) as [m [Hm Hpm]]. exists m. split; [exact Hm|]. split; [exact Hpm|].
+    apply (perm_equiv R rO rI radd rmul rsub ropp); [exact (proj1 (reg_wf fuel k xs m Hw Hm)) | exact Hpm].
+  Qed.
+
+  (* for EVERY body of the expression language: if both return, they return the same multivector *)
+  Theorem tape_never_differs : forall fuel k body (xs : list (mv R)) v m,
+    nth_error bodies k = Some body -> noswap body = true -> Forall (wfm R A) xs ->
+    plain fuel k xs = Ok v -> reg fuel k xs = Ok m ->
+    Permutation m (as_mv v) /\ m == as_mv v.
+  Proof.
+    intros fuel k body xs v m Hb Hns Hw Hp Hm. unfold plain_call in Hp. rewrite Hb in Hp. cbn [of_opt bind] in Hp.
+    destruct (registered_agrees R rO rI radd rmul rsub ropp Rth A opd bodies Hok H0 Hgr fuel k body xs v Hw Hb Hns Hp) as [H1 _].
+    pose proof (H1 m Hm) as Hpm. split; [exact Hpm|].
+    apply (perm_equiv R rO rI radd rmul rsub ropp); [exact (proj1 (reg_wf fuel k xs m Hw Hm)) | exact Hpm].
+  Qed.
+
+  (* the compiled function does not depend on how its arguments are stored *)
+  Theorem tape_storage_independent : forall fuel k (xs xs' : list (mv R)) m,
+    Forall (wfm R A) xs -> Forall2 (@Permutation (Z * R)) xs xs' ->
+    reg fuel k xs = Ok m -> exists m', reg fuel k xs' = Ok m' /\ Permutation m m'.
+  Proof.
+    intros fuel k xs xs' m Hw Hp Hm.
+    destruct (registered_perm R rO rI radd rmul rsub ropp A opd bodies Hok H0 fuel k xs xs' m Hw Hp Hm)
+      as [_ [body [ko' [tb' [vs' [Eb [Er [Erun [Hl [Hk Hpm]]]]]]]]]].
+    exists (combine ko' vs'). split; [|exact Hpm].
+    unfold registered, compile. rewrite Eb. cbn [of_opt bind]. rewrite Er. cbn [bind]. rewrite Erun. reflexivity.
+  Qed.
+
+  (* members the recorder does not have: raise, never a value *)
+  Theorem tape_outside_fragment :
+    (forall o c ks t, match o with IDiv | IOr | IAnd | IRshift | IMatmul => True | _ => False end ->
+       rec_infix O opd tape_methods o (RNum c) (RRec ks t) = Err EAttr) /\
+    (forall m ks t r2, mlookup m tape_methods = None -> ~ In m ["__rsub__"; "__rmul__"; "__rxor__"] ->
+       rec_meth2 opd tape_methods m (RRec ks t) r2 = Err EAttr) /\
+    (forall m ks t, mlookup m tape_methods = None -> rec_meth1 opd tape_methods m (RRec ks t) = Err EAttr).
+  Proof.
+    split; [|split].
+    - intros o c ks t Ho. cbn [rec_infix]. unfold rec_meth2. rewrite lk_tp_rdunder. destruct o; try contradiction; reflexivity.
+    - intros m ks t r2 Hl Hn. unfold rec_meth2. rewrite Hl. unfold rec_special.
+      destruct (String.eqb_spec m "__rsub__") as [E|_]; [exfalso; apply Hn; subst; cbn; auto|].
+      destruct (String.eqb_spec m "__rmul__") as [E|_]; [exfalso; apply Hn; subst; cbn; auto|].
+      destruct (String.eqb_spec m "__rxor__") as [E|_]; [exfalso; apply Hn; subst; cbn; auto|]. reflexivity.
+    - intros m ks t Hl. unfold rec_meth1. rewrite Hl. reflexivity.
+  Qed.
+End C11.
+
+(* the hypotheses on the unmodelled operators are satisfiable: a table without them *)
+Lemma no_ext_ok R A : ext_ok R A (@no_ext R).
+Proof. constructor; unfold no_ext, call_op; cbn; intros; discriminate. Qed.
+
+(* examples of members outside the recorder *)
+Example outside_members : mlookup "__ror__" tape_methods = None /\ mlookup "__rand__" tape_methods = None
+  /\ mlookup "__rrshift__" tape_methods = None /\ mlookup "__rmatmul__" tape_methods = None
+  /\ mlookup "__rtruediv__" tape_methods = None /\ mlookup "exp" tape_methods = None /\ mlookup "asfullmv" tape_methods = None.
+Proof. vm_compute. repeat split. Qed.
